@@ -104,6 +104,8 @@ class SelfStub:
         return v
 
     def __setattr__(self, name, v):
+        if isinstance(v, Opaque):
+            v.what = name
         self._vals[name] = v
         self._writes.append(name)
 
@@ -221,7 +223,12 @@ class Tracer:
         if stub is not None:
             f(stub, *args, **(kwargs or {}))
         else:
-            f(*args, **(kwargs or {}))
+            stub = SelfStub(self, cfg)
+            stub._vals['convert_to_spline'] = lambda arr: Opaque(arr.args[0] if isinstance(arr, E) and arr.op == 'sym' else 'conv')
+            pos = cfg.get('stub_pos', 0)
+            a = list(args)
+            a.insert(pos, stub)
+            f(*a, **(kwargs or {}))
         return stub, self.captured, self.returned
 
 
